@@ -11,7 +11,7 @@ def run():
     # fine-grained model of counting_semaphore on the internal condition variable
     for cfg in ("SemImpl.cfg", "SemImpl_big.cfg", "SemImpl_ones.cfg"):
         chk.add_model("SemImpl/%s" % cfg[:-4], vlib.model_check("SemImplMC", cfg, timeout=600))
-    for cfg in ("SemImpl_dev_loop.cfg", "SemImpl_dev_timed.cfg"):
+    for cfg in ("SemImpl_dev_loop.cfg", "SemImpl_dev_timed.cfg", "SemImpl_dev_blind.cfg"):
         rr = vlib.model_check("SemImplMC", cfg, expect_ok=False, timeout=600)
         chk.add_model("SemImpl/variant %s (must violate)" % cfg[12:-4], rr, note="violated: %s" % rr["violated"])
     r = vlib.model_check("SemAbsMC", "SemAbsMC_dev.cfg", expect_ok=False, timeout=600)
